@@ -212,20 +212,23 @@ theorem makePost_fields (g : Game) (m : Move) :
   · show (postEp g5 m).ep = _; rw [e3, hw5]
   · show (postEp g5 m).castling &&& _ = _; rw [e2, hc5]
 
+theorem makeCore_fields_force (g : Game) (m : Move) :
+    (makeForce g m).white = (!g.white) ∧
+    (makeForce g m).ep = (if m.isDoublePush then (if g.white then m.toSq + 8 else m.toSq - 8) else SQNONE) ∧
+    (makeForce g m).castling = g.castling &&& (Gen.CASTLING_RIGHTS.getD m.toSq 0 &&& Gen.CASTLING_RIGHTS.getD m.fromSq 0) := by
+  unfold makeForce
+  obtain ⟨a, b', c⟩ := makePost_fields (makePre g m) m
+  obtain ⟨p1, p2⟩ := makePre_wc g m
+  rw [a, b', c, p1, p2]
+  exact ⟨rfl, rfl, rfl⟩
+
 theorem makeCore_fields (g g' : Game) (m : Move) (hmk : makeCore g m = some g') :
     g'.white = (!g.white) ∧
     g'.ep = (if m.isDoublePush then (if g.white then m.toSq + 8 else m.toSq - 8) else SQNONE) ∧
     g'.castling = g.castling &&& (Gen.CASTLING_RIGHTS.getD m.toSq 0 &&& Gen.CASTLING_RIGHTS.getD m.fromSq 0) := by
-  unfold makeCore at hmk
-  simp only at hmk
-  split at hmk
-  · exact absurd hmk (by simp)
-  · injection hmk with hmk
-    subst hmk
-    obtain ⟨a, b', c⟩ := makePost_fields (makePre g m) m
-    obtain ⟨p1, p2⟩ := makePre_wc g m
-    rw [a, b', c, p1, p2]
-    exact ⟨rfl, rfl, rfl⟩
+  have := makeCore_some hmk
+  subst this
+  exact makeCore_fields_force g m
 
 /-! ### the board conditions survive the move -/
 
@@ -441,43 +444,45 @@ theorem preCapture_clocks (g : Game) (m : Move) : (preCapture g m).halfMoves = g
   · rw [if_neg hc]; exact ⟨rfl, rfl⟩
 
 /-- the half-move clock (a `u8`) restarts on pawn moves and captures, the full-move number (a `u16`) grows after Black -/
+theorem makeCore_clocks_force (g : Game) (m : Move) :
+    (makeForce g m).halfMoves = (if m.piece == WP || m.piece == BP || m.isCapture then 0 else (g.halfMoves + 1) % 256) ∧
+    (makeForce g m).fullMoves = (if g.white then g.fullMoves else (g.fullMoves + 1) % 65536) := by
+  unfold makeForce
+  have hpre : (makePre g m).halfMoves = g.halfMoves ∧ (makePre g m).fullMoves = g.fullMoves ∧ (makePre g m).white = g.white := by
+    unfold makePre
+    obtain ⟨a, b'⟩ := preCapture_clocks (preMove (preKeys g) m) m
+    have k : (preKeys g).halfMoves = g.halfMoves ∧ (preKeys g).fullMoves = g.fullMoves := by unfold preKeys; split <;> exact ⟨rfl, rfl⟩
+    exact ⟨a.trans k.1, b'.trans k.2, (makePre_wc g m).1⟩
+  obtain ⟨p1, p2, p3⟩ := hpre
+  generalize makePre g m = g2 at p1 p2 p3
+  unfold makePost
+  obtain ⟨s1, s2⟩ := postSpecial_clocks (postClock (postOcc g2 m) m) m
+  obtain ⟨sw, _⟩ := postSpecial_wc (postClock (postOcc g2 m) m) m
+  have ho : (postOcc g2 m).halfMoves = g2.halfMoves ∧ (postOcc g2 m).fullMoves = g2.fullMoves ∧ (postOcc g2 m).white = g2.white := by
+    unfold postOcc; split <;> exact ⟨rfl, rfl, rfl⟩
+  have hc : (postClock (postOcc g2 m) m).halfMoves = (if m.piece == WP || m.piece == BP || m.isCapture then 0 else ((postOcc g2 m).halfMoves + 1) % 256) ∧
+      (postClock (postOcc g2 m) m).fullMoves = (postOcc g2 m).fullMoves ∧ (postClock (postOcc g2 m) m).white = (postOcc g2 m).white := by
+    unfold postClock; split <;> exact ⟨rfl, rfl, rfl⟩
+  generalize postSpecial (postClock (postOcc g2 m) m) m = g5 at s1 s2 sw
+  have he : (postEp g5 m).halfMoves = g5.halfMoves ∧ (postEp g5 m).fullMoves = g5.fullMoves ∧ (postEp g5 m).white = g5.white := by
+    unfold postEp; split
+    · split <;> exact ⟨rfl, rfl, rfl⟩
+    · exact ⟨rfl, rfl, rfl⟩
+  have hs : ∀ x : Game, (postSide x).halfMoves = x.halfMoves ∧ (postSide x).fullMoves = (if x.white then x.fullMoves else (x.fullMoves + 1) % 65536) := by
+    intro x; unfold postSide; simp only
+    cases x.white <;> exact ⟨rfl, rfl⟩
+  obtain ⟨h1, h2⟩ := hs (postRights (postEp g5 m) m)
+  rw [h1, h2]
+  show (postEp g5 m).halfMoves = _ ∧ (if (postEp g5 m).white = true then (postEp g5 m).fullMoves else ((postEp g5 m).fullMoves + 1) % 65536) = _
+  rw [he.1, he.2.1, he.2.2, s1, s2, sw, hc.1, hc.2.1, hc.2.2, ho.1, ho.2.1, ho.2.2, p1, p2, p3]
+  exact ⟨rfl, rfl⟩
+
 theorem makeCore_clocks (g g' : Game) (m : Move) (hmk : makeCore g m = some g') :
     g'.halfMoves = (if m.piece == WP || m.piece == BP || m.isCapture then 0 else (g.halfMoves + 1) % 256) ∧
     g'.fullMoves = (if g.white then g.fullMoves else (g.fullMoves + 1) % 65536) := by
-  unfold makeCore at hmk
-  simp only at hmk
-  split at hmk
-  · exact absurd hmk (by simp)
-  · injection hmk with hmk
-    subst hmk
-    have hpre : (makePre g m).halfMoves = g.halfMoves ∧ (makePre g m).fullMoves = g.fullMoves ∧ (makePre g m).white = g.white := by
-      unfold makePre
-      obtain ⟨a, b'⟩ := preCapture_clocks (preMove (preKeys g) m) m
-      have k : (preKeys g).halfMoves = g.halfMoves ∧ (preKeys g).fullMoves = g.fullMoves := by unfold preKeys; split <;> exact ⟨rfl, rfl⟩
-      exact ⟨a.trans k.1, b'.trans k.2, (makePre_wc g m).1⟩
-    obtain ⟨p1, p2, p3⟩ := hpre
-    generalize makePre g m = g2 at p1 p2 p3
-    unfold makePost
-    obtain ⟨s1, s2⟩ := postSpecial_clocks (postClock (postOcc g2 m) m) m
-    obtain ⟨sw, _⟩ := postSpecial_wc (postClock (postOcc g2 m) m) m
-    have ho : (postOcc g2 m).halfMoves = g2.halfMoves ∧ (postOcc g2 m).fullMoves = g2.fullMoves ∧ (postOcc g2 m).white = g2.white := by
-      unfold postOcc; split <;> exact ⟨rfl, rfl, rfl⟩
-    have hc : (postClock (postOcc g2 m) m).halfMoves = (if m.piece == WP || m.piece == BP || m.isCapture then 0 else ((postOcc g2 m).halfMoves + 1) % 256) ∧
-        (postClock (postOcc g2 m) m).fullMoves = (postOcc g2 m).fullMoves ∧ (postClock (postOcc g2 m) m).white = (postOcc g2 m).white := by
-      unfold postClock; split <;> exact ⟨rfl, rfl, rfl⟩
-    generalize postSpecial (postClock (postOcc g2 m) m) m = g5 at s1 s2 sw
-    have he : (postEp g5 m).halfMoves = g5.halfMoves ∧ (postEp g5 m).fullMoves = g5.fullMoves ∧ (postEp g5 m).white = g5.white := by
-      unfold postEp; split
-      · split <;> exact ⟨rfl, rfl, rfl⟩
-      · exact ⟨rfl, rfl, rfl⟩
-    have hs : ∀ x : Game, (postSide x).halfMoves = x.halfMoves ∧ (postSide x).fullMoves = (if x.white then x.fullMoves else (x.fullMoves + 1) % 65536) := by
-      intro x; unfold postSide; simp only
-      cases x.white <;> exact ⟨rfl, rfl⟩
-    obtain ⟨h1, h2⟩ := hs (postRights (postEp g5 m) m)
-    rw [h1, h2]
-    show (postEp g5 m).halfMoves = _ ∧ (if (postEp g5 m).white = true then (postEp g5 m).fullMoves else ((postEp g5 m).fullMoves + 1) % 65536) = _
-    rw [he.1, he.2.1, he.2.2, s1, s2, sw, hc.1, hc.2.1, hc.2.2, ho.1, ho.2.1, ho.2.2, p1, p2, p3]
-    exact ⟨rfl, rfl⟩
+  have := makeCore_some hmk
+  subst this
+  exact makeCore_clocks_force g m
 
 /-- a castling right that survives the move: neither end of the move is a home square of that right -/
 theorem right_survives (c x y k : Nat) (h : (c &&& (x &&& y)) &&& 2^k ≠ 0) :
@@ -655,6 +660,14 @@ theorem makeCore_wf (g g' : Game) (m : Move) (b : Board) (wf : Wf g b) (fits : M
   obtain ⟨o1, o2, o3⟩ := makeCore_occ g g' m b wf.occW wf.occB wf.occA fits hmk
   obtain ⟨f1, f2, f3⟩ := makeCore_fields g g' m hmk
   refine ⟨makeCore_rep g g' m b wf.rep fits hmk, o1, o2, o3, ?_⟩
+  rw [f1, f2, f3]
+  exact applyB_ok wf.ok fits
+
+theorem makeForce_wf (g : Game) (m : Move) (b : Board) (wf : Wf g b) (fits : MoveFits b g.white m) :
+    Wf (makeForce g m) (applyB b g.white m) := by
+  obtain ⟨o1, o2, o3⟩ := makeCore_occ_force g m b wf.occW wf.occB wf.occA fits
+  obtain ⟨f1, f2, f3⟩ := makeCore_fields_force g m
+  refine ⟨makeCore_rep_force g m b wf.rep fits, o1, o2, o3, ?_⟩
   rw [f1, f2, f3]
   exact applyB_ok wf.ok fits
 
